@@ -586,3 +586,33 @@ def _may_be_empty(a, call, cfg, f):
         return False
     rd = ReachingDefs(cfg, f.node)
     return any(isinstance(v, (ast.Tuple, ast.Dict, ast.List)) and not (getattr(v, 'elts', None) or getattr(v, 'keys', None)) for v, st, how in rd.at(call, a.id))
+
+
+@rule('C04.R1c', min_instances=1)
+def default_accessible_only_without_separator(ctx):
+    """a specifier `<module>` addresses the default accessible (value / target), `<module>:<name>` addresses <name> - also when
+    <name> is empty (`change mod: 5` has to be refused with NoSuch...).  Where the specifier is cut by partition(':'), the
+    default is chosen by the presence of the separator, never by the truth value of the name part"""
+    m = ctx.m
+    n = 0
+    for q, fi in sorted(m.functions.items()):
+        if fi.module.name != 'frappy.protocol.dispatcher':
+            continue
+        for a in [x for x in body_walk(fi.node) if isinstance(x, ast.Assign) and isinstance(x.value, ast.Call) and call_attr(x.value) == 'partition'
+                  and x.value.args and isinstance(x.value.args[0], ast.Constant) and x.value.args[0].value == ':'
+                  and isinstance(x.targets[0], ast.Tuple) and len(x.targets[0].elts) == 3 and isinstance(x.targets[0].elts[2], ast.Name)]:
+            n += 1
+            ctx.analysed(fi)
+            name = a.targets[0].elts[2].id
+            from sa.rules.common import _in_test_position
+            by_truth = [x for x in body_walk(fi.node) if
+                        (isinstance(x, ast.BoolOp) and any(isinstance(v, ast.Name) and v.id == name for v in x.values[:-1])) or
+                        (isinstance(x, (ast.If, ast.IfExp)) and any(isinstance(at, ast.Name) and at.id == name for at, tv in facts_on_side(x.test, True) + facts_on_side(x.test, False)))]
+            key = f'{fi.qualname}:default accessible only for a specifier without separator'
+            if by_truth:
+                ctx.bad(key, by_truth[0], f'`{src(by_truth[0]).splitlines()[0]}` takes an EMPTY accessible name (`<module>:`) for a missing one: `change <module>: <v>` is '
+                        'carried out on the default accessible (the driver is called, the cache changes, an update goes out) instead of being refused with NoSuchParameter', fi)
+            else:
+                ctx.ok(key, a, 'the name part is used as it is, the default depends on the separator', fi)
+    if not n:
+        ctx.ok('specifiers are cut by split / membership test', None, 'no partition(\':\') in the dispatcher')
